@@ -91,7 +91,10 @@ func checkC18(p *Program, r *Report) {
 	r.Explain = "C18.copy: Sort sorts the slices of a deep copy of its argument (origin fresh, not the parameter), returns that copy, and has no write effect on memory " +
 		"reachable from the parameter. C18.pure: the comparators and Len write nothing but their own locals; Swap exchanges exactly s[i] and s[j]. C18.same: " +
 		"InPlaceSort, Sort and IsSorted view inputs and outputs through the same two sortable types, so they share one order; the input comparator reads only " +
-		"(previous hash, previous index), the output comparator only (value, script). Not decided: that the comparator is the BIP69 order for all keys (value level)."
+		"(previous hash, previous index), the output comparator only (value, script). C18.order: each comparator consults its elements only through order relations " +
+		"(integer comparisons, array equality, bytes.Compare / bytes.Equal on the same key field of both), so it is a function of finitely many orderings; it is " +
+		"evaluated over all of them and must agree with BIP69 on each; the big-endian reading of the transaction id is discharged structurally (both local copies " +
+		"reversed by a complete mirror-swap loop, or a byte walk from the last index down to 0). Not decided: bytes.Compare itself, sort.Sort."
 	r.Trusted = []string{"wire.MsgTx.Copy is a deep copy", "sort.Sort permutes only through Swap and compares only through Less"}
 	ef := NewEffects(p)
 	srt := p.Func("txsort", "Sort")
@@ -226,6 +229,19 @@ func checkC18(p *Program, r *Report) {
 			r.Unresolved("C18.pure", name+".Swap")
 		}
 	}
+	// ---- C18.order: the comparators against the BIP69 order
+	var inLess, outLess *ssa.Function
+	for nt := range seen {
+		less := p.Func("txsort", "("+nt.Obj().Name()+").Less")
+		if sl, ok := nt.Underlying().(*types.Slice); ok && less != nil {
+			if strings.HasSuffix(sl.Elem().String(), "wire.TxIn") {
+				inLess = less
+			} else if strings.HasSuffix(sl.Elem().String(), "wire.TxOut") {
+				outLess = less
+			}
+		}
+	}
+	c18order(p, r, inLess, outLess)
 	r.Floor("C18.copy", 5)
 	r.Floor("C18.same", 5)
 	r.Floor("C18.pure", 6)
